@@ -76,7 +76,7 @@ theorem zoneLoopT_eq (T : TimeExt) (cf : Nat) (f : Fields) (hwf : WellFormed f =
         simp only [ih t (matches_valid f t hm) hty]
 
 /-- every real `prev` is an int64 count of nanoseconds, so the start wall clock is before the year 2263 -/
-theorem wall0_year (c prev : Int) (hc : -100000 ≤ c ∧ c ≤ 100000) (hp : 0 ≤ prev) (hmax : prev ≤ 9223372036854775807) :
+theorem wall0_year (c prev : Int) (hc : -100000 ≤ c ∧ c ≤ 100000) (hp : -9223372036854775808 ≤ prev) (hmax : prev ≤ 9223372036854775807) :
     (Civil.ofSeconds (prev / 1000000000 + c)).year ≤ 3940 := by
   have h1 := Civil.ofSeconds_year_mono (prev / 1000000000 + c) 9223472137
     (by show -((719529 : Nat) : Int) * 86400 + 86400 ≤ _; omega) (by omega)
@@ -85,7 +85,7 @@ theorem wall0_year (c prev : Int) (hc : -100000 ≤ c ∧ c ≤ 100000) (hp : 0 
 
 /-- on a fixed-offset location, `NextFireTime` with the translated state machine is the model's `nextFire` -/
 theorem nextFireT_eq (T : TimeExt) (cf : Nat) (f : Fields) (hwf : WellFormed f = true) (hA : Agree T cf f)
-    (c prev : Int) (hc : -100000 ≤ c ∧ c ≤ 100000) (hp : 0 ≤ prev) (hmax : prev ≤ 9223372036854775807) :
+    (c prev : Int) (hc : -100000 ≤ c ∧ c ≤ 100000) (hp : -9223372036854775808 ≤ prev) (hmax : prev ≤ 9223372036854775807) :
     nextFireT T cf f (fixedZone c) prev = nextFire {} f (fixedZone c) prev := by
   obtain ⟨hwv, _⟩ := wall0_valid c prev hc hp
   have hy := wall0_year c prev hc hp hmax
